@@ -115,8 +115,8 @@ PROPS = {
                 "chunk of one helper's own shuffle traffic (MPC or shard-to-shard) rewritten at a site drawn from the honest run's channel inventory (stratified by step); "
                 "non-trivial iff >=1 multi-choice decision and >=2 rows (fault-free) or the tampered chunk was delivered; distinct by (shape, site, schedule digest)",
         "scenarios": [
-            {"name": "c05_shuffle", "quick": 1200, "thorough": 60000, "offset": 1, "chunk": 25, "run_timeout": 120},
-            {"name": "c05_tamper", "quick": 1600, "thorough": 80000, "offset": 2, "chunk": 20, "run_timeout": 120, "crash_ok": True, "max_workers": 12},
+            {"name": "c05_shuffle", "quick": 3000, "thorough": 60000, "offset": 1, "chunk": 25, "run_timeout": 120},
+            {"name": "c05_tamper", "quick": 4000, "thorough": 80000, "offset": 2, "chunk": 20, "run_timeout": 120, "crash_ok": True, "max_workers": 12},
         ],
         "expected_probes": ["empty_shards", "rows_fewer_than_shards", "malicious_runs", "honest_helper_returned_error"],
         "components_real": ["protocol::ipa_prf::shuffle::{sharded, malicious}, report::hybrid Shuffleable impls, cross-shard reshard, PRSS, Gateway, in-memory MPC+shard transports (TestWorld<WithShards<S>>)"],
@@ -126,7 +126,7 @@ PROPS = {
         "rule": "run = 1..6 seeded impression/conversion reports (site-domain lengths {0,1,2,20,100,255} incl. non-printable ASCII and NUL, extreme timestamps, NaN/inf/subnormal floats, 3 key ids) encrypted with real HPKE; "
                 "then for one sample record EVERY single-bit flip at EVERY byte offset and EVERY truncation length are decrypted, plus garbage/zero/all-ones records of many lengths, a different key pair and an empty registry; "
                 "finally the length-delimited body is parsed through seeded chunkings (with Pending) intact and damaged (zero-length record, torn tail, flipped length prefix, random bit flips, short record); "
-                "non-trivial always; distinct by (record mix, sample kind) - mutations executed are reported in probes.mutations",
+                "non-trivial always; distinct by (record count, the sample record's plaintext attributes, its ciphertext) - the number of mutations executed is reported in probes.mutations",
         "scenarios": [
             {"name": "c10_reports", "quick": 3000, "thorough": 150000, "offset": 1, "chunk": 100},
         ],
